@@ -181,9 +181,18 @@ func runSolverCtx(parent context.Context, sp solverSpec, query string, timeoutS 
 	_ = cmd.Run()
 	el := time.Since(t0).Seconds()
 	s := out.String()
-	first := strings.TrimSpace(s)
-	if i := strings.IndexByte(first, '\n'); i >= 0 {
-		first = strings.TrimSpace(first[:i])
+	first := ""
+	rest := s
+	for _, l := range strings.Split(s, "\n") {
+		t := strings.TrimSpace(l)
+		if t == "" || strings.HasPrefix(t, "WARNING") || strings.Contains(t, "cvc5 will make all theories") || strings.Contains(t, "set-logic") {
+			continue
+		}
+		first = t
+		if i := strings.Index(s, l); i >= 0 {
+			rest = s[i:]
+		}
+		break
 	}
 	res := SolverResult{Solver: sp.name, Time: el, Output: s}
 	switch {
@@ -191,8 +200,8 @@ func runSolverCtx(parent context.Context, sp solverSpec, query string, timeoutS 
 		res.Status = "unsat"
 	case first == "sat":
 		res.Status = "sat"
-		if i := strings.IndexByte(s, '\n'); i >= 0 {
-			res.Model = s[i+1:]
+		if i := strings.IndexByte(rest, '\n'); i >= 0 {
+			res.Model = rest[i+1:]
 		}
 	case first == "unknown":
 		res.Status = "unknown"
